@@ -10,7 +10,7 @@ from sa.db import AnalysisError, ClassInfo, FunctionInfo, dotted, mangle, norm_s
 from sa.flow import Interp, WithEnter, call_of
 
 CLAIM = {
-    "text": "Decides the mutual-exclusion structure behind contiguous packets: in every class that owns a send lock, every write-side operation on the underlying endpoint (send_packet, send_packet_to, send_eof, close/aclose) is, on every path, inside the extent of that one lock, which is created once by a lock factory and never released early; low-level endpoints enclose their sender await in their ResourceGuard; in the TLS transport one caller's plaintext reaches the SSL object without any suspension point in between and every ciphertext write to the wrapped transport (BIO read + send_all in one expression) is inside the transport send lock; FairLock keeps its first-come-first-served shape; send paths do not spawn the write into another task. A flag that send_packet() tests under the send lock is, in a graceful close, stored only while that lock is held; the TLS write-all helper removes a chunk only after the write; the send loops make progress (rule of C04). Round 4: explicit `lock.acquire()` calls are paired - released on every exit once acquired, release registered only when held, the body of the context manager runs only with the lock (path-sensitive on the boolean result, exact short-circuit evaluation). Round 5: the send and receive locks are distinct objects (C18.order); in the selector retry loop the 'infinite wait came back empty' error is reachable only after the unbounded select().",
+    "text": "Decides the mutual-exclusion structure behind contiguous packets: in every class that owns a send lock, every write-side operation on the underlying endpoint (send_packet, send_packet_to, send_eof, close/aclose) is, on every path, inside the extent of that one lock, which is created once by a lock factory and never released early; low-level endpoints enclose their sender await in their ResourceGuard; in the TLS transport one caller's plaintext reaches the SSL object without any suspension point in between and every ciphertext write to the wrapped transport (BIO read + send_all in one expression) is inside the transport send lock; FairLock keeps its first-come-first-served shape; send paths do not spawn the write into another task. A flag that send_packet() tests under the send lock is, in a graceful close, stored only while that lock is held; the TLS write-all helper removes a chunk only after the write; the send loops make progress (rule of C04). Round 4: explicit `lock.acquire()` calls are paired - released on every exit once acquired, release registered only when held, the body of the context manager runs only with the lock (path-sensitive on the boolean result, exact short-circuit evaluation). Round 5: the send and receive locks are distinct objects (C18.order); in the selector retry loop the 'infinite wait came back empty' error is reachable only after the unbounded select(). Round 6: FairLock waiters leave the queue only by removing themselves in acquire() (and the private coroutines only acquire() runs): release() dequeues nobody; the facts are read over that acquire family and over local aliases of the queue; concurrent TLS senders each flush what they queued.",
     "note": "Trusted: fairness / correctness of asyncio.Lock and threading.Lock themselves; that the endpoint's send is the only route to the wire (C08 covers the TLS confinement). Not decided: liveness.",
     "technique": "lock-held typestate and atomic-section (no may-suspend point between two atoms) by abstract interpretation over an exception-aware structured CFG; interprocedural may-suspend summaries; shape facts on FairLock",
 }
